@@ -373,7 +373,26 @@ class Sym:
                     return ("bool", "or" if e.func.id == "any" else "and", tuple(parts))
             pos = tuple(("uop", "*", rec(a.value)) if isinstance(a, ast.Starred) else rec(a) for a in e.args)
             kws = tuple((kw.arg or "**", rec(kw.value)) for kw in e.keywords)
-            return ("call", rec(e.func), pos, kws)
+            f = rec(e.func)
+            # map(f, xs) is (f(x) for x in xs); attrgetter / itemgetter / list / tuple as f are spelled out
+            if f == ("glob", "map") and len(pos) == 2 and not kws:
+                el = mk_elem(pos[1])
+                g = pos[0]
+                getter = g[1][2] if (is_call_of(g) and g[1][:1] == ("attr",) and g[1][1] == ("glob", "operator")) else \
+                    (g[1][1] if (is_call_of(g) and g[1][:1] == ("glob",)) else None)
+                if getter == "attrgetter" and len(g[2]) == 1 and g[2][0][:1] == ("const",):
+                    body = ("attr", el, g[2][0][1].strip("'\""))
+                elif getter == "itemgetter" and len(g[2]) == 1:
+                    body = ("sub", el, g[2][0])
+                elif g in (("glob", "list"), ("glob", "tuple")) and el[:1] == ("elem",) and is_call_of(el[1], ("glob", "zip")):
+                    body = (g[1], tuple(("elem", a) for a in el[1][2]))
+                else:
+                    body = ("call", g, (el,), ())
+                return ("acc", "gen", (("one", (), body),))
+            # list(<generator built here>) is the list with the same contributions
+            if f in (("glob", "list"), ("glob", "set")) and len(pos) == 1 and not kws and pos[0][:1] == ("acc",) and pos[0][1] in ("gen", "list", "set"):
+                return ("acc", f[1], pos[0][2])
+            return ("call", f, pos, kws)
         if isinstance(e, ast.BinOp):
             l, r = rec(e.left), rec(e.right)
             if isinstance(e.op, ast.Add):
